@@ -215,7 +215,9 @@ DecCo == {NatDs(n) : n \in 0..DecCoMax} \cup DecBoundaryCo \cup SeqRange(Samples
 DecFormCo == {NatDs(n) : n \in 0..Min2(DecCoMax, 25)} \cup {Rep(9, 18), D18, <<1,2,0,0>>}
 DecFormEx == {-18, -17, -7, -6, -3, -1, 0, 1, 3, 18}
 DecCases ==
-  [k : {"dpy"}, neg : BOOLEAN, co : DecCo, ex : -18..18]
+  \* pad: the python value is held with that many extra zero digits (coefficient x 10^pad, exponent - pad): same number,
+  \* another representation - e.g. Decimal('100000000000000000.00') for 1E+17
+  [k : {"dpy"}, neg : BOOLEAN, co : DecCo, ex : -18..18, pad : {0, 2}]
   \cup [k : {"dxml"}, neg : BOOLEAN, co : DecCo, ex : -18..18, f : {"canon"}]
   \cup [k : {"dxml"}, neg : BOOLEAN, co : DecFormCo, ex : DecFormEx,
         f : {"plus", "lead0", "trail0", "nointzero", "dotend"}]
